@@ -1993,6 +1993,101 @@ pub mod vx_ids {
             }
         @*/
     }
+
+    // ==========================================================================================
+    // 8. the remaining public IdMap operations: Diff::diff_with (x2), merge_many, from_set, filter, attributions
+    // ==========================================================================================
+    // trait-method impls cannot carry `requires`: the two `Diff::diff_with` bodies are lifted whole (R18) into free functions
+    /*@extract yrs/src/id_map.rs | impl<A: PartialEq + Eq + Hash + Clone> Diff<IdSet> for IdMap<A> | region diff_with | arm=fn diff_with(&mut self, other: &IdSet) | label=idmap_diff_with_set | rules=SUB(from=self.inner;;to=this.inner)
+    @header
+        fn idmap_diff_with_set<CA: Merge>(this: &mut IdMap<CA>, other: &IdSet)
+    @sig
+        requires wf_map(old(this)@), wf_map(other@),
+        ensures
+            wf_map(final(this)@),
+            forall|c: ClientID, k: int| #![trigger has_pt(final(this)@, c, k)] #![trigger has_pt(old(this)@, c, k)] #![trigger has_pt(other@, c, k)]
+                has_pt(final(this)@, c, k) <==> has_pt(old(this)@, c, k) && !has_pt(other@, c, k),
+            forall|c: ClientID, k: int| #![trigger has_pt(final(this)@, c, k)] #![trigger val(final(this)@, c, k)]
+                has_pt(final(this)@, c, k) ==> val(final(this)@, c, k) == val(old(this)@, c, k),
+    @*/
+
+    /*@extract yrs/src/id_map.rs | impl<A, U> Diff<IdMap<U>> for IdMap<A> where A: Eq + Hash + Clone, U: Eq + Hash + Clone, | region diff_with | arm=fn diff_with(&mut self, other: &IdMap<U>) | label=idmap_diff_with_map | rules=SUB(from=self.inner;;to=this.inner)
+    @header
+        fn idmap_diff_with_map<CA: Merge, CU: Merge>(this: &mut IdMap<CA>, other: &IdMap<CU>)
+    @sig
+        requires wf_map(old(this)@), wf_map(other@),
+        ensures
+            wf_map(final(this)@),
+            forall|c: ClientID, k: int| #![trigger has_pt(final(this)@, c, k)] #![trigger has_pt(old(this)@, c, k)] #![trigger has_pt(other@, c, k)]
+                has_pt(final(this)@, c, k) <==> has_pt(old(this)@, c, k) && !has_pt(other@, c, k),
+            forall|c: ClientID, k: int| #![trigger has_pt(final(this)@, c, k)] #![trigger val(final(this)@, c, k)]
+                has_pt(final(this)@, c, k) ==> val(final(this)@, c, k) == val(old(this)@, c, k),
+    @*/
+
+    impl<CA: Merge> IdMap<CA> {
+        // the `attrs` interning cache field does not exist in the stand-in struct
+        /*@extract yrs/src/id_map.rs | impl<A: PartialEq + Eq + Hash + Clone> IdMap<A> | fn new | label=idmap_new | rules=SUB(from=attrs: Default::default(),;;to=)
+        @ret r
+        @sig
+            ensures r@ == Map::<ClientID, Seq<Ent<CA>>>::empty(), wf_map(r@),
+        @*/
+    }
+
+    /// some map among the first `n` has the point
+    pub open spec fn any_has<CA: Merge>(ms: Seq<IdMap<CA>>, n: int, c: ClientID, k: int) -> bool {
+        exists|i: int| 0 <= i < n && i < ms.len() && #[trigger] has_pt(ms[i]@, c, k)
+    }
+
+    pub proof fn lemma_any_has_step<CA: Merge>(ms: Seq<IdMap<CA>>, n: int, c: ClientID, k: int)
+        requires 0 <= n < ms.len(),
+        ensures any_has(ms, n + 1, c, k) <==> any_has(ms, n, c, k) || has_pt(ms[n]@, c, k),
+    {
+        if any_has(ms, n + 1, c, k) {
+            let i = choose|i: int| 0 <= i < n + 1 && i < ms.len() && #[trigger] has_pt(ms[i]@, c, k);
+            if i < n { assert(any_has(ms, n, c, k)); }
+        }
+        if any_has(ms, n, c, k) {
+            let i = choose|i: int| 0 <= i < n && i < ms.len() && #[trigger] has_pt(ms[i]@, c, k);
+            assert(0 <= i < n + 1 && has_pt(ms[i]@, c, k));
+        }
+        if has_pt(ms[n]@, c, k) { assert(0 <= n < n + 1 && has_pt(ms[n]@, c, k)); }
+    }
+
+    /*@extract yrs/src/id_map.rs | impl<A: PartialEq + Eq + Hash + Clone> IdMap<A> | region merge_many | arm=pub fn merge_many(id_maps: &[Self]) -> Self | label=idmap_merge_many
+    @header
+        fn idmap_merge_many<CA: Merge>(id_maps: &[IdMap<CA>]) -> (res: IdMap<CA>)
+    @drop `for attr in &map.attrs`
+    @sig
+        requires forall|i: int| 0 <= i < id_maps@.len() ==> wf_map(#[trigger] id_maps@[i]@),
+        ensures
+            wf_map(res@),
+            // the union of all the maps (the attribute at a point is the accumulated merge; only the point set is stated)
+            forall|c: ClientID, k: int| #![trigger has_pt(res@, c, k)] #![trigger any_has(id_maps@, id_maps@.len() as int, c, k)]
+                has_pt(res@, c, k) <==> any_has(id_maps@, id_maps@.len() as int, c, k),
+    @loop 1 iter=it
+        invariant
+            it.seq().len() == id_maps@.len(),
+            forall|i: int| 0 <= i < id_maps@.len() ==> *(#[trigger] it.seq()[i]) == id_maps@[i],
+            forall|i: int| 0 <= i < id_maps@.len() ==> wf_map(#[trigger] id_maps@[i]@),
+            wf_map(result@),
+            forall|c: ClientID, k: int| #![trigger has_pt(result@, c, k)] #![trigger any_has(id_maps@, it.index@ as int, c, k)]
+                has_pt(result@, c, k) <==> any_has(id_maps@, it.index@ as int, c, k),
+    @before 1 `stmt:call merge_with`
+        let ghost n = it.index@ as int;
+        let ghost r0 = result@;
+        proof {
+            assert(*it.seq()[n] == id_maps@[n]);
+            assert(wf_map(id_maps@[n]@));
+        }
+    @after 1 `stmt:call merge_with`
+        proof {
+            assert forall|c: ClientID, k: int| #![trigger has_pt(result@, c, k)] #![trigger any_has(id_maps@, n + 1, c, k)]
+                has_pt(result@, c, k) <==> any_has(id_maps@, n + 1, c, k) by {
+                lemma_any_has_step(id_maps@, n, c, k);
+                assert(has_pt(result@, c, k) <==> has_pt(r0, c, k) || has_pt(id_maps@[n]@, c, k));
+            }
+        }
+    @*/
 }
 
 } // verus!
